@@ -580,6 +580,10 @@ class World:
         if name in ("proc_oneshot_info", "proc_kinfo_oneshot", "proc_basic_info"):
             ov = dict(ppid=1, status=self.status_code(), ttynr=self.ttynr(), name=self.name, oncpu=3, nice=5,
                       nlwp=2)
+            if p in ("openbsd", "netbsd") and self.state == "zombie":
+                # these two kernels report no start time for a zombie: p_ustart_sec/usec of its kinfo_proc2 are zero
+                # (psutil/__init__.py, Process.__eq__: "Zombie processes on Open/NetBSD have a creation time of 0.0")
+                ov["ctime"] = 0.0
             base += 1000
         elif name == "proc_pidtaskinfo_oneshot":
             base += 2000
